@@ -676,6 +676,7 @@ func runLoopCase(ci interface{}, rec *pbt.Rec) *pbt.Failure {
 func TestC08(t *testing.T) {
 	(&pbt.Check{
 		ID:          "C08",
+		Part:        "evm",
 		Rule:        "full-loop histories over 1..6 validators (equal / small / skewed powers, some without ethereum key): sends, batch requests, blocks, power changes, unbonding, partial signing rounds, relayer submissions of signer sets and batches to the REAL Hub2 bytecode with all / the smallest sufficient / the largest insufficient subset of the confirmations the hub's queries return, external clock ticks, real transferToChain deposits, feeding contract events back as claims; non-trivial = a batch executed under a rotated signer set, or a submission within 2^26 of the contract threshold; distinct = distinct case JSON",
 		Gen:         genLoopCase,
 		New:         func() interface{} { return &LoopCase{} },
